@@ -1,4 +1,4 @@
-import BqVerif.Proofs.ServerBubble
+import BqVerif.Proofs.ServerObs
 /-!
 # C13 — task failures reach their client; no client request takes the server down
 
@@ -101,66 +101,84 @@ theorem C13_foreign_like_unknown (a : Abs) (A : Conn) (t : Tid)
 /-! ## errors -/
 
 /-- an ERROR tagged with mailbox id `m` changes no table; it is forwarded to exactly the owner
-of the task `m` names iff the server still knows that task (its owner is connected), and to
-nobody otherwise; it is never turned into a RESULT -/
+of the compilation `m` names iff that compilation is still open (its mailbox exists: RUNNING
+or DONE), and to nobody otherwise; it is never turned into a RESULT -/
 theorem C13_error_routed {s : Srv} (h : Inv s) (m : Mid) (msg : Nat) :
     ∃ s', step s (.error m msg) = .ok s' ∧
       s'.clients = s.clients ∧ s'.tasks = s.tasks ∧ s'.m2t = s.m2t ∧ s'.boxes = s.boxes ∧
       s'.running = s.running ∧
-      (match get? s.m2t m with
+      (match get? s.boxes m with
        | none => s'.out = []
-       | some t => ∃ c, get? s.tasks t = some (m, c) ∧ s'.out = [.errorTo c msg]) ∧
+       | some _ => ∃ t c ts, get? s.m2t m = some t ∧ get? s.tasks t = some (m, c) ∧
+           get? s.clients c = some ts ∧ t ∈ ts ∧ s'.out = [.errorTo c msg]) ∧
       ∀ c v, Out.resultTo c v ∉ s'.out := by
   obtain ⟨s', e1, a1, a2, a3, a4, _, a6, _, a8⟩ := step_error_eq h m msg
   refine ⟨s', e1, a1, a2, a3, a4, a6, a8, ?_⟩
   intro c v hm
-  cases hx : get? s.m2t m with
+  cases hx : get? s.boxes m with
   | none => rw [hx] at a8; simp only at a8; rw [a8] at hm; cases hm
-  | some t =>
-    rw [hx] at a8; obtain ⟨c', _, ho⟩ := a8
+  | some b =>
+    rw [hx] at a8; obtain ⟨t, c', ts, _, _, _, _, ho⟩ := a8
     rw [ho] at hm; simp at hm
 
-/-
-Full-strength reading of DESIGN.md ("discarded iff the task was cancelled") - FALSE of the
-code: `handle_error` only looks at `mailbox_to_task_dict`, which keeps cancelled and
-delivered tasks until their client disconnects.
+/-- (full strength after fix 3a23d26) the ERROR of a compilation that is cancelled, delivered,
+unknown, or whose client is gone is discarded: nothing is sent, nothing changes -/
+theorem C13_error_discarded_when_closed {s : Srv} (h : Inv s) (m : Mid) (msg : Nat)
+    (hb : get? s.boxes m = none) :
+    ∃ s', step s (.error m msg) = .ok s' ∧ s'.out = [] ∧ s'.clients = s.clients ∧
+      s'.tasks = s.tasks ∧ s'.m2t = s.m2t ∧ s'.boxes = s.boxes := by
+  obtain ⟨s', e1, a1, a2, a3, a4, _, _, _, a8⟩ := step_error_eq h m msg
+  rw [hb] at a8
+  exact ⟨s', e1, a8, a1, a2, a3, a4⟩
 
-theorem C13_error_discarded_when_closed (h : Reach s) (hm : get? s.m2t m = some t)
-    (hb : get? s.boxes m = none) : ∃ s', step s (.error m msg) = .ok s' ∧ s'.out = []
--/
+/-- the same on the automaton, hence - with `C13_history_refines` - for every history: an ERROR
+is answered with a message to the owner iff the task is RUNNING or DONE -/
+theorem C13_error_spec (a : Abs) (t : Tid) (msg : Nat) :
+    (spec a (.error (some t) msg)).1 = a ∧
+    (spec a (.error (some t) msg)).2 =
+      (match a.task t with
+       | .running o _ => [.errorTo o msg]
+       | .done o _ => [.errorTo o msg]
+       | .unknown | .delivered _ | .cancelled _ => []) ∧
+    (spec a (.error none msg)) = (a, []) := by
+  cases hst : a.task t <;> simp [spec, hst]
 
+/-- the history that used to forward a stale ERROR (finding fixed by 3a23d26) -/
 def staleErrorHistory : List Ev := [.connect 0, .submit 0 0, .cancel 0 0, .error 0 5]
 
-/-- witness: after the client cancelled its task the task's ERROR is still forwarded to it
-(replayed on the real handlers by the harness; KNOWN-FINDING stale-error-forwarded) -/
-theorem C13_stale_error_witness :
+/-- regression instance: after the client cancelled its task the task's ERROR is discarded -/
+theorem C13_stale_error_discarded :
     wfHist init staleErrorHistory = true ∧
-    histReplies staleErrorHistory = some [[], [], [.cancelAck 0], [.errorTo 0 5]] := by
+    histReplies staleErrorHistory = some [[], [], [.cancelAck 0], []] := by
   decide
 
-/-- an exception raised by the root task of compilation `m` or by any task it spawned, at
-any depth (`Desc`), on any worker, behind any number `k` of manager levels - unless it is a
-plain RuntimeError of a lineage that was cancelled - arrives at the server as ERROR tagged
-`m`, is sent to exactly the owner `c` of the compilation, and the owner's pending or next
-call raises with the original text, whatever LOG records precede it -/
-theorem C13_error_reaches_owner {s : Srv} (h : Reach s) {m : Mid} {t : Tid} {d : RTask}
-    (hm : get? s.m2t m = some t) (hd : Desc (rootTask m) d)
+/-- an exception raised by the root task of the open compilation `m` or by any task it
+spawned, at any depth (`Desc`), on any worker, behind any number `k` of manager levels - unless
+it is a plain RuntimeError of a lineage that was cancelled - arrives at the server as ERROR
+tagged `m`, is sent to exactly the owner `c` of the compilation, and the owner's pending or
+next call raises with the original text, whatever LOG records precede it (both in the pipe
+before the call starts and after the request was sent) -/
+theorem C13_error_reaches_owner {s : Srv} (h : Reach s) {m : Mid} {b : Box} {d : RTask}
+    (hb : get? s.boxes m = some b) (hd : Desc (rootTask m) d)
     (cancelled : List Addr) (plainRte : Bool)
     (hc : plainRte = false ∨ cancelled.any d.isDescendantOf = false)
     (k : Nat) (msg : Nat) (logs : List Nat) (rest : List CMsg) :
-    ∃ u c s', workerOnException cancelled d plainRte msg = some u ∧
-      get? s.tasks t = some (m, c) ∧
+    ∃ u t c ts s', workerOnException cancelled d plainRte msg = some u ∧
+      get? s.m2t m = some t ∧ get? s.tasks t = some (m, c) ∧
+      get? s.clients c = some ts ∧ t ∈ ts ∧
       step s (throughManagers k u).toEv = .ok s' ∧ s'.out = [.errorTo c msg] ∧
-      recvHandle (logs.map CMsg.log ++ CMsg.error msg :: rest) none = .raised msg := by
+      recvHandle (logs.map CMsg.log ++ CMsg.error msg :: rest) none = .raised msg ∧
+      preDrain (logs.map CMsg.log ++ CMsg.error msg :: rest) = .raised msg := by
   have hw : workerOnException cancelled d plainRte msg = some (.error m msg) := by
     have : d.comp = m := hd.comp
     rcases hc with x | x <;> simp [workerOnException, x, this]
   obtain ⟨s', e1, _, _, _, _, _, _, _, a8⟩ := step_error_eq h.inv m msg
-  rw [hm] at a8
-  obtain ⟨c, h1, ho⟩ := a8
-  refine ⟨_, c, s', hw, h1, ?_, ho, ?_⟩
+  rw [hb] at a8
+  obtain ⟨t, c, ts, hm, h1, hcl, ht, ho⟩ := a8
+  refine ⟨_, t, c, ts, s', hw, hm, h1, hcl, ht, ?_, ho, ?_, ?_⟩
   · rw [throughManagers_id]; exact e1
   · rw [recvHandle_logs]; rfl
+  · rw [preDrain_logs]; rfl
 
 /-- the client's receive loop: LOG records are passed over and do not end the wait; the
 first non-LOG message decides; with only LOGs the call keeps blocking -/
@@ -174,11 +192,72 @@ theorem C13_client_recv (logs : List Nat) :
   · have := recvHandle_logs logs [] none
     simpa [recvHandle] using this
 
-/-- witness of the client-side finding: a LOG record waiting in the pipe when a call starts
-ends that call with AttributeError (→ 'Server connection unexpectedly closed.'), whereas the
-receive loop proper passes LOGs through (`C13_client_recv`) -/
-theorem C13_client_stale_log_witness (x : Nat) (rest : List CMsg) :
-    preDrain (CMsg.log x :: rest) = .attributeError := rfl
+/-- (full strength after fix 131dac7) LOG records pending in the pipe when a call starts never
+make the call fail: its outcome is that of the same call without them; with nothing but LOGs
+pending the request goes out; a pending ERROR still raises with its text -/
+theorem C13_client_predrain (logs : List Nat) :
+    (∀ pending arriving, sendRecv (logs.map CMsg.log ++ pending) arriving = sendRecv pending arriving) ∧
+    preDrain (logs.map CMsg.log) = .clean ∧
+    (∀ arriving, sendRecv (logs.map CMsg.log) arriving = sendRecv [] arriving) ∧
+    (∀ msg rest arriving, sendRecv (logs.map CMsg.log ++ CMsg.error msg :: rest) arriving
+        = .wrapped (some msg)) := by
+  refine ⟨fun p a => ?_, ?_, fun a => ?_, fun msg rest a => ?_⟩
+  · simp [sendRecv, preDrain_logs]
+  · have := preDrain_logs logs []; simpa [preDrain] using this
+  · have := preDrain_logs logs []
+    simp only [List.append_nil] at this
+    simp [sendRecv, this]
+  · simp [sendRecv, preDrain_logs, preDrain]
+
+/-! ## what is really written; the outgoing thread -/
+
+/-- (full strength since fix 9f2bad4) every reply the automaton prescribes is really written to
+its client: what a handler queues is never lost to a `close` of the same handler, because the
+only handler that answers and closes (`request` for a non-open id) writes its answer itself -/
+theorem C13_written_replies {s s' : Srv} {a : Abs} {e : Ev} (h : Inv s) (r : R s a)
+    (hw : wf s e = true) (hs : step s e = .ok s') :
+    writtenReplies s'.out = (spec a (absEv s e)).2 :=
+  written_step h r hw hs
+
+/-- regression instance: the answer to a request for an unknown id reaches the client -/
+theorem C13_bad_request_reply_written (a : Abs) (c : Conn) (t : Tid) (downs : List Out)
+    (h : (a.task t).openFor c = false) (hd : ∀ o ∈ downs, ∃ m, o = Out.downCancel m) :
+    (spec a (.request c t)).2 = [.errorTo c 0, .close c] ∧
+    writtenReplies (Out.errorNow c 0 :: Out.close c :: downs) = [.errorTo c 0, .close c] := by
+  refine ⟨by rw [spec_request_notOpen h], ?_⟩
+  have := written_disc (pre := [Out.errorNow c 0]) (c := c) hd (Or.inr rfl)
+  simpa [clientReplies, Out.reply?] using this
+
+/-- (full strength since fixes dfecb96, 9e98cc2) one iteration of the outgoing thread, whatever
+happens to the `send` - skipped, sent, or failed with EOFError / any OSError (ConnectionReset,
+BrokenPipe, …): the thread survives and the server state is untouched; in particular the
+vanished client is still registered, so the main loop's EOF for it is an ordinary well-formed
+`disconnect` (no second disconnect can occur) -/
+theorem C13_outgoing_thread (s : Srv) (c : Conn) (r : SendResult)
+    (hr : r ≠ .failed .nonOSError) :
+    (outgoingStep s c r).1 = true ∧ (outgoingStep s c r).2 = s ∧
+    ∀ e, wf (outgoingStep s c r).2 e = wf s e := by
+  have h2 : (outgoingStep s c r).2 = s := by cases r <;> rfl
+  refine ⟨?_, h2, fun e => by rw [h2]⟩
+  cases r with
+  | skippedClosed => rfl
+  | sent => rfl
+  | failed e => cases e <;> first | rfl | exact absurd rfl hr
+
+/-- observation (not a violation): for an ERROR reply the caller of `status/result/cancel` gets
+the wrapped exception - its own text is 'Server connection unexpectedly closed.', the original
+text is its `__cause__`; the chain carries the message -/
+theorem C13_client_error_in_cause (msg : Nat) (logs : List Nat) (rest : List CMsg) :
+    sendRecv [] (logs.map CMsg.log ++ CMsg.error msg :: rest) = .wrapped (some msg) := by
+  simp [sendRecv, preDrain, recvHandle_logs, recvHandle]
+
+/-- a `disconnect` of an unregistered connection would be a failing lookup; `wf` excludes it
+and, since 9e98cc2, so does the code (only the main loop disconnects, once) -/
+theorem C13_second_disconnect_not_wf :
+    histFails [.connect 0, .disconnect 0] = false ∧
+    histFails [.connect 0, .disconnect 0, .disconnect 0] = true ∧
+    wfHist init [.connect 0, .disconnect 0, .disconnect 0] = false := by
+  decide
 
 /-! ## non-vacuity -/
 
@@ -211,12 +290,21 @@ example : Inv demo ∧ (Ev.cancel 0 7).client = some 0 ∧ wf demo (.cancel 0 7)
 -- C13_foreign_like_unknown: a foreign running task
 example : ((Abs.setTask absInit 7 (.running 1 false)).task 7).owner ≠ some 0 := by
   simp [Abs.setTask, TaskSt.owner]
--- C13_error_routed: both branches occur
-example : get? demo.m2t 0 = some 7 ∧ get? demo.m2t 1 = none := ⟨rfl, rfl⟩
+-- C13_error_routed / C13_error_discarded_when_closed: both branches occur
+example : get? demo.boxes 0 = some ⟨none, false⟩ ∧ get? demo.boxes 1 = none := ⟨rfl, rfl⟩
+example : Inv demo ∧ get? demo.boxes 1 = none := ⟨demo_reach.inv, rfl⟩
 -- C13_error_reaches_owner: a task two levels below the root task of mailbox 0, one manager
-example : Reach demo ∧ get? demo.m2t 0 = some 7 ∧
+example : Reach demo ∧ get? demo.boxes 0 = some ⟨none, false⟩ ∧
     Desc (rootTask 0) (spawn (spawn (rootTask 0) 3 0 0) 4 1 2) ∧
     (false = false ∨ ([] : List Addr).any (spawn (spawn (rootTask 0) 3 0 0) 4 1 2).isDescendantOf = false) :=
   ⟨demo_reach, rfl, .spawn _ _ _ (.spawn _ _ _ .root), Or.inl rfl⟩
+
+-- C13_written_replies: same hypotheses as C13_refines_task_automaton (see above), incl. the
+-- closing request kinds
+example : wf demo (.request 0 7) = true ∧ closesConn absInit (.request 0 7) = true := ⟨rfl, rfl⟩
+-- C13_bad_request_reply_written: an unknown id is not open
+example : (absInit.task 5).openFor 0 = false := rfl
+-- C13_outgoing_thread: a broken pipe is such a result
+example : SendResult.failed .brokenPipe ≠ .failed .nonOSError := by decide
 
 end BqVerif.C13
